@@ -167,6 +167,9 @@ static QString val(Tape &t, uint32_t maxLen, bool allowEmpty = false)
     }
     s.remove(u'<');
     s.replace(QStringLiteral("&lt;"), QStringLiteral("&"));
+    // removing characters may have exposed blanks at the edges: values are non-blank and not blank-edged (a
+    // whitespace-only text node does not survive the harness's own DOM parse of the reply)
+    s = s.trimmed();
     if (s.isEmpty() && !allowEmpty)
         s = QStringLiteral("x");
     return s;
